@@ -203,20 +203,30 @@ def configs(tier: str, seed: int):
     for D in (2, 3):
         for desc in class_menu(D, tier):
             vel = is_velocity(desc)
-            kinds = ("param", "buffer") if desc["cls"] == "Generic" else ("param", "buffer", "callable")
-            acs = (True,) if needs_ac_true(desc) else ((True, False) if (vel or tier == "thorough") else (True,))
-            Ns = (1, 2) if (tier == "thorough" and not vel and desc["cls"] != "Generic") else (1,)
-            for ac in acs:
+            kinds = ("param", "buffer", "callable")
+            variants = [(True, 1)]
+            if vel and not needs_ac_true(desc):
+                variants.append((False, 1))
+            if tier == "thorough" and not vel and (desc["cls"] in LINEAR_ELEMENTARY or desc["cls"] in ("RigidTransform", "Sequential")):
+                variants += [(False, 1), (True, 2)]  # batch / flag handling variants (explored to depth 3)
+            for ac, N in variants:
                 for kind in kinds:
-                    for N in Ns:
-                        out.append({"D": D, "desc": desc, "ac": ac, "kind": kind, "N": N, "seed": seed, "vel": vel})
+                    out.append({"D": D, "desc": desc, "ac": ac, "kind": kind, "N": N, "seed": seed, "vel": vel})
     return out
 
 
 def depth_of(cfg, tier: str) -> int:
-    if cfg["vel"]:
-        return 2 if tier == "quick" else 3
-    return 3 if tier == "quick" else 4
+    """History depth: quick 3 (velocity models 2); thorough 5 for Parameter / fixed-tensor kinds and 4 for callable
+    parameters (their state space grows with every edit), velocity models 4 / 3; the extra thorough variants
+    (N = 2 groups, align_corners=False for linear models) vary the batch / flag handling and are explored to depth 3."""
+    vel, kind = cfg["vel"], cfg.get("kind", "param")
+    if tier == "quick":
+        return 2 if vel else 3
+    if cfg.get("N", 1) > 1 or (not vel and not cfg.get("ac", True)):
+        return 3
+    if vel:
+        return 3 if kind == "callable" else 4
+    return 4 if kind == "callable" else 5
 
 
 def bounds(tier):
@@ -224,8 +234,9 @@ def bounds(tier):
     return {
         "configurations": len(cf),
         "alphabet": list(OPS),
-        "depth_linear": depth_of({"vel": False}, tier),
-        "depth_velocity": depth_of({"vel": True}, tier),
+        "depth_linear": {k: depth_of({"vel": False, "kind": k}, tier) for k in ("param", "buffer", "callable")},
+        "depth_velocity": {k: depth_of({"vel": True, "kind": k}, tier) for k in ("param", "buffer", "callable")},
+        "depth_extra_variants(N=2, ac=False)": 3,
         "parameter_kinds": ["param", "buffer", "callable"],
         "order_tests": len(order_cases(tier, 0)),
         "expflow_tests": len(expflow_cases(tier, 0)),
@@ -242,6 +253,17 @@ class Net(torch.nn.Module):
 
     def forward(self, c: float = 1.0):
         return self.W * c
+
+
+class DictNet(torch.nn.Module):
+    """Callable that provides the parameter dictionary of a GenericSpatialTransform: {name: W[name] * c}."""
+
+    def __init__(self, W: dict):
+        super().__init__()
+        self.W = torch.nn.ParameterDict({k: torch.nn.Parameter(v.clone()) for k, v in W.items()})
+
+    def forward(self, c: float = 1.0):
+        return {k: v * c for k, v in self.W.items()}
 
 
 def _tensor(v):
@@ -267,12 +289,13 @@ def _apply_setter(m, cls, values):
 class Leaf:
     """One parametric member of the forward transform."""
 
-    def __init__(self, path, cls, module, net, values):
+    def __init__(self, path, cls, module, net, values, key=None):
         self.path = path  # tuple of names from the root
         self.cls = cls
         self.module = module
         self.net = net
         self.values = values  # dict which -> setter-space values (N groups) / fields
+        self.key = key  # entry of a DictNet
 
 
 class System:
@@ -300,6 +323,7 @@ class System:
         self.t_current = False
         self.inv_current = False
         self.cond = 1.0  # current conditioning scalar (callable kind)
+        self.acc = None  # accumulator for headroom counters (optional)
 
     # -- construction ------------------------------------------------------------------------------------
     def _values(self, cls, shift, module=None):
@@ -373,6 +397,19 @@ class System:
 
             cfgobj = TransformConfig(transform=desc["transform"], affine_model=desc["model"], rotation_model="ZXZ",
                                      control_point_spacing=2 if "FFD" in desc["transform"] else 1, scaling_and_squaring_steps=5)
+            if self.kind == "callable":
+                probe = GenericSpatialTransform(grid, params=False, config=cfgobj)
+                W, pend = {}, []
+                for j, (name, m) in enumerate(probe.named_transforms()):
+                    mcls = type(m).__name__
+                    vals = self._values(mcls if mcls in LINEAR_ELEMENTARY else "dense", j, m)
+                    W[name] = _tensor(vals["V0"])
+                    pend.append((name, mcls, vals))
+                net = DictNet(W)
+                t = GenericSpatialTransform(grid, params=net, config=cfgobj)
+                for name, mcls, vals in pend:
+                    self.leaves.append(Leaf(path + (name,), mcls, t[name], net, vals, key=name))
+                return t
             t = GenericSpatialTransform(grid, params=(self.kind == "param"), config=cfgobj)
             for j, (name, m) in enumerate(t.named_transforms()):
                 mcls = type(m).__name__
@@ -388,12 +425,19 @@ class System:
             return self.kind == "callable"
         if op == "replace":
             return self.kind != "callable"  # documented ReadOnlyParameters
-        if op in ("update_inv", "call"):
+        if op == "update_inv":
+            # a linked inverse reads the parameters the forward transform has buffered ("directly access the parameters
+            # from this transformation"): updating it while the forward's predicted parameters are not current is stale
+            # usage (documented AssertionError "params must be set first" for a never-updated generic transform)
+            return self.has_inv and not (self.link and self.kind == "callable" and not self.t_current)
+        if op == "call":
             return self.has_inv
         return True
 
     def _param_tensor(self, leaf: Leaf):
-        return leaf.net.W if leaf.net is not None else leaf.module.params
+        if leaf.net is None:
+            return leaf.module.params
+        return leaf.net.W[leaf.key] if leaf.key is not None else leaf.net.W
 
     def _raw_of(self, leaf: Leaf, which: str):
         """Raw parameter tensor that the public setter produces for the menu value `which` (scratch object)."""
@@ -522,18 +566,30 @@ class System:
                 if self.linear_part():
                     # error of the velocity member is carried through the (inverse) linear members, condition <= 4
                     bound = 4.0 * bound + C * EPS32 * COND_BOUND * float(max(1.0, np.abs(obs["y"]).max())) * float((1.0 / unit).max())
+                self._headroom(e / bound)
                 if e > bound:
                     out.append((f"{name}/not-identity", f"max error {e:.4f} samples > 0.5*A^2 = {bound:.4f} (A = {A:.3f} samples)"))
             else:
                 scale = max(1.0, float(np.abs(xb).max()), float(np.abs(obs["y"]).max()), float(np.abs(obs["z"]).max()))
                 tol = C * EPS32 * scale * COND_BOUND
                 e = float(np.abs(got - xb).max())
+                self._headroom(e / tol)
                 if e > tol:
                     out.append((f"{name}/not-identity", f"max error {e:.3e} cube units > tol {tol:.2e} (forward moves the probes by up to {moved:.3e})"))
         return out, moved > 1e-3
 
     def linear_part(self) -> bool:
         return self.cfg["desc"]["cls"] not in VELOCITY
+
+    def _headroom(self, ratio: float):
+        """Count judgements that used more than 10 % / 50 % of their tolerance (reported in the evidence)."""
+        if self.acc is None or ratio > 1.0:
+            return
+        fam = "velocity" if self.cfg["vel"] else "linear"
+        for thr in (0.1, 0.5):
+            if ratio > thr:
+                k = f"judgements_above_{thr}_of_tolerance_{fam}"
+                self.acc.info[k] = self.acc.info.get(k, 0) + 1
 
     def velocity_amplitude(self) -> float:
         """Largest displacement (in samples) of the forward velocity members, read from their buffer u after evaluation."""
@@ -608,7 +664,6 @@ class System:
                 if prm is None:
                     prm = d.get("params", None)
                 f = fwd[leaf.path]
-                fp = self._param_tensor(leaf) if leaf.net is None else None
                 if isinstance(prm, torch.Tensor):
                     rel = b"same" if prm is f.__dict__.get("_parameters", {}).get("params", f.__dict__.get("_buffers", {}).get("params")) else b"own:" + tensor_bytes(prm)
                 elif prm is f and m is not f:
@@ -707,6 +762,7 @@ def run_history(cfg, hist, acc: Acc = None, judge: bool = True):
     st, sysm = guarded(System, cfg)
     if st == "raises":
         return None, [(f"C07/construct/{fam}/{raises_kind(sysm)}/{tail}", exc_text(sysm))], False, b""
+    sysm.acc = acc
     nontriv = False
     obytes = b""
     for i, op in enumerate(hist):
@@ -714,8 +770,8 @@ def run_history(cfg, hist, acc: Acc = None, judge: bool = True):
             return None, out, False, b"disabled"
         st, res = guarded(sysm.apply, op)
         if st == "raises":
-            form = ops_sig(hist[: i + 1]) if op not in MAKE_INV else "-"
-            out.append((f"C07/{op}/{fam}/{form}/{raises_kind(res)}/{tail}", exc_text(res)))
+            # an exception is named by the letter, its type and the innermost deepali frame (the history is in the case)
+            out.append((f"C07/{op}/{fam}/{raises_kind(res)}/{tail}", exc_text(res)))
             return None, out, False, b"raise"
         if op == "call" and judge and sysm.defined:
             probs, nt = sysm.judge_call(res)
@@ -741,7 +797,7 @@ def run_history(cfg, hist, acc: Acc = None, judge: bool = True):
                 acc.undef("tensor-level: buffers not documented current")
             st, res = guarded(sysm.evaluate_call)
             if st == "raises":
-                out.append((f"C07/state/{fam}/{ops_sig(hist)}/call/{raises_kind(res)}/{tail}", exc_text(res)))
+                out.append((f"C07/state/{fam}/call/{raises_kind(res)}/{tail}", exc_text(res)))
             else:
                 probs, nt = sysm.judge_call(res)
                 nontriv |= nt
@@ -881,7 +937,6 @@ def run_order(case, acc: Acc = None):
         acc.state("order", lab, case["form"], case["variant"], ac, D, case["kind"])
         if errs[1.0][1] > 0.1:
             acc.nontriv("order", lab, case["form"], case["variant"], ac, D, case["kind"])
-        acc.info["order_max_err_over_A2_x1000"] = max(acc.info.get("order_max_err_over_A2_x1000", 0), 0)
     return out
 
 
